@@ -21,7 +21,7 @@ pub struct TwinCase {
 
 /// Structural pre-classification of a candidate insertion: Some(class) if the statement says it
 /// must leave no trace, None if it is (or may be) a legitimate state-changing call.
-fn reject_class(r: &Runner, call: &Call) -> Option<&'static str> {
+fn reject_class(r: &Runner, call: &Call, stale_by_epoch: bool) -> Option<&'static str> {
     let view = r.inst.view();
     match call {
         Call::Data(b) => {
@@ -37,8 +37,11 @@ fn reject_class(r: &Runner, call: &Call) -> Option<&'static str> {
                 None => None,
             }
         }
+        // a timer is stale when the instance's epoch changed (Idle / Defunct / Rejoin notified, identity
+        // changed or reused) after the call that issued it - judged from the notifications, not from the
+        // instance's own token, which is what a defect would get wrong - or when it carries a foreign token
         Call::Timer(t) => match timer_token(t) {
-            Some(k) if k != view.snap.timer_token => Some("stale-epoch-timer"),
+            Some(k) if k != view.snap.timer_token || stale_by_epoch => Some("stale-epoch-timer"),
             _ => None,
         },
         Call::ReuseDown => {
@@ -181,6 +184,8 @@ pub fn exec_twin(case: &TwinCase, out: &mut CaseOut) -> Result<(), Fail> {
     let mut mid_probe = false;
     let mut pending_updates = false;
     let mut tail: std::collections::VecDeque<String> = Default::default();
+    let mut conn_b = crate::hist::ConnTracker::default();
+    let mut epoch_after_call: std::collections::BTreeMap<usize, u64> = Default::default();
     for (i, op) in case.ops.iter().enumerate() {
         for (pos, cands) in &case.inserts {
             if ((*pos as usize) * n) >> 16 != i {
@@ -191,8 +196,12 @@ pub fn exec_twin(case: &TwinCase, out: &mut CaseOut) -> Result<(), Fail> {
                 if matches!(cand, Op::Fire(_) | Op::FireNext) {
                     continue;
                 }
-                let Some((call, _)) = b.concretize(cand) else { continue };
-                let Some(class) = reject_class(&b, &call) else {
+                let Some((call, origin)) = b.concretize(cand) else { continue };
+                let stale_by_epoch = match &origin {
+                    Origin::Old(p) | Origin::Issued(p) => epoch_after_call.get(&p.issued_in).map(|e| *e != conn_b.epoch).unwrap_or(false),
+                    _ => false,
+                };
+                let Some(class) = reject_class(&b, &call, stale_by_epoch) else {
                     skipped += 1;
                     continue;
                 };
@@ -234,6 +243,10 @@ pub fn exec_twin(case: &TwinCase, out: &mut CaseOut) -> Result<(), Fail> {
         let ra = a.step(op);
         let ra2 = a2.step(op);
         let rb = b.step(op);
+        if let Some((rec, _)) = &rb {
+            conn_b.absorb(rec);
+            epoch_after_call.insert(b.ncalls - 1, conn_b.epoch);
+        }
         match (&ra, &ra2, &rb) {
             (None, None, None) => continue,
             (Some((x, _)), Some((x2, _)), Some((y, _))) => {
@@ -336,6 +349,42 @@ impl Part for TwinHugePart {
     }
 }
 
+/// Long-lived instances: 250..260 identity changes come first, so that the 8-bit timer token is at its
+/// wrap when the generated history (with its own Idle / Active flapping) and the stale timers follow.
+pub struct TwinManyEpochsPart;
+impl Part for TwinManyEpochsPart {
+    type Case = TwinCase;
+    fn name(&self) -> &'static str {
+        "twin-histories-after-250-epoch-changes"
+    }
+    fn strategy(&self, _t: Tier) -> BoxedStrategy<TwinCase> {
+        let (sp, mut p) = profile();
+        p.max_len = 70;
+        p.timers_weight = 40;
+        let ins_op = prop_oneof![5 => any::<u16>().prop_map(Op::FireOld), 1 => insert_op(&p)];
+        let ins = proptest::collection::vec((any::<u16>(), proptest::collection::vec(ins_op, 1..4)), 2..10);
+        (setup(&sp), 250..260usize, proptest::collection::vec(op(&p), 5..p.max_len), ins)
+            .prop_map(|(setup, k, ops, inserts)| {
+                let mut all: Vec<Op> = (0..k).map(|i| Op::ChangeIdentity(IdSel::OwnAddr(5 + (i % 2) as u8), RENEW_NONE)).collect();
+                // insertion points are positions in the whole history: keep them behind the prefix
+                let n = k + ops.len();
+                all.extend(ops);
+                let inserts = inserts.into_iter().map(|(pos, c)| ((((k + ((pos as usize) * (n - k) >> 16)) << 16) / n + 1).min(65535) as u16, c)).collect();
+                TwinCase { setup, ops: all, inserts }
+            })
+            .boxed()
+    }
+    fn cases(&self, tier: Tier) -> u64 {
+        tier.pick(2_500, 100_000)
+    }
+    fn exec(&self, case: &TwinCase, out: &mut CaseOut) -> Result<(), Fail> {
+        exec_twin(case, out)
+    }
+    fn max_shrink_iters(&self) -> u32 {
+        300
+    }
+}
+
 impl Part for TwinPart {
     type Case = TwinCase;
     fn name(&self) -> &'static str {
@@ -360,12 +409,13 @@ pub fn run(ctx: &Ctx, report: &mut Report) -> EvidenceMeta {
     ctx.replay_corpus("wire_bytes", report);
     ctx.run_part(&TwinPart, report);
     ctx.run_part(&TwinHugePart, report);
+    ctx.run_part(&TwinManyEpochsPart, report);
     if ctx.tier == Tier::Thorough {
         ctx.fuzz_campaign("wire_bytes", 20_000_000, 300, report);
     }
     EvidenceMeta {
         level: "exploration",
-        rule: "proptest twin runs: a random base history (datagrams of every kind, timers, API calls, custom broadcasts; FixCodec/VarCodec/PostcardCodec; packet sizes 60..200 and 1400) is executed three times from the same seed: twice as is (determinism) and once with 1..7 insertion points each carrying 1..3 candidate rejected inputs. A candidate is inserted only if the harness's own structural classifier (not Foca) puts it in a class the statement names (oversized, header undecodable, member list undecodable, from own identity/address, stray byte after header, Announce with data, not addressed to the instance, stale-epoch timer from the instance's own past, reuse_down_identity when not Defunct, change_identity(current), invalid config, empty/oversized add_broadcast, and - in a second part with packet limits of 65600..131072 bytes and a stateful handler - add_broadcast of an item that respects the limit but not the 16-bit length prefix); otherwise it is counted as skipped. Oracle: each inserted call emits nothing and leaves every getter and the hook snapshot unchanged, and every base call has identical concrete arguments, result, sends, timers, notifications, handler calls and after-state in all three runs. Non-trivial: >= 3 different rejection classes inserted, at least one while a probe round is open and one while updates are pending, or an item beyond the length prefix inserted; distinct = (set of classes, codec)."
+        rule: "proptest twin runs: a random base history (datagrams of every kind, timers, API calls, custom broadcasts; FixCodec/VarCodec/PostcardCodec; packet sizes 60..200 and 1400) is executed three times from the same seed: twice as is (determinism) and once with 1..7 insertion points each carrying 1..3 candidate rejected inputs. A candidate is inserted only if the harness's own structural classifier (not Foca) puts it in a class the statement names (oversized, header undecodable, member list undecodable, from own identity/address, stray byte after header, Announce with data, not addressed to the instance, stale-epoch timer from the instance's own past (stale = an Idle / Defunct / Rejoin notification or an identity change / reuse happened after the call that issued it; a third part puts 250..260 identity changes in front of the history so that the 8-bit token wraps), reuse_down_identity when not Defunct, change_identity(current), invalid config, empty/oversized add_broadcast, and - in a second part with packet limits of 65600..131072 bytes and a stateful handler - add_broadcast of an item that respects the limit but not the 16-bit length prefix); otherwise it is counted as skipped. Oracle: each inserted call emits nothing and leaves every getter and the hook snapshot unchanged, and every base call has identical concrete arguments, result, sends, timers, notifications, handler calls and after-state in all three runs. Non-trivial: >= 3 different rejection classes inserted, at least one while a probe round is open and one while updates are pending, or an item beyond the length prefix inserted; distinct = (set of classes, codec)."
             .into(),
         assumptions: vec![
             "datagrams whose header and member list are valid but whose custom-broadcast tail is malformed are processed before the error is returned; they are not in the statement's list and are never inserted".into(),
@@ -378,6 +428,7 @@ pub fn replay(part_name: &str, case: &Value) -> Option<Result<(), Fail>> {
         p if p.starts_with("fuzz:") => replay_fuzz(p, case),
         "twin-histories" => Some(replay_with(&TwinPart, case)),
         "twin-histories-packet-limit-above-64k" => Some(replay_with(&TwinHugePart, case)),
+        "twin-histories-after-250-epoch-changes" => Some(replay_with(&TwinManyEpochsPart, case)),
         _ => None,
     }
 }
